@@ -17,6 +17,7 @@ stream C: every format-significant character (the separator in use — also a no
 with the oracle of the property's last sentence: refused with a pyGAPS error or equal — never a different value.
 gemmi, xlrd/xlwt and pandas I/O are exercised only by these round trips (residue).
 """
+import ast
 import json
 import math
 import os
@@ -591,6 +592,12 @@ def run(ck):
                 c["meta"]["baseline"] = -0.0
             elif i % 15 == 8:
                 c["material_props"] = {**c["material_props"], "offset": -0.0}
+            # a whole number ABOVE the float maximum (float(v) overflows), in every run, as a metadata value and as a material-property value (no draw from rng).
+            # CSV / AIF write the digits and read them back exactly; Excel cells are doubles: xlwt's OverflowError escapes from isotherm_to_xl (S64-C07)
+            if i % 15 == 5:
+                c["meta"]["serial"] = HUGE_INTS[(i // 15) % len(HUGE_INTS)]
+            elif i % 15 == 11:
+                c["material_props"] = {**c["material_props"], "lot": HUGE_INTS[(i // 15) % len(HUGE_INTS)]}
             try:
                 iso = _build(pg, c)
             except Exception:
@@ -647,6 +654,13 @@ def run(ck):
                     ck.count((fmt, c["kind"], i), bucket=f"{fmt}:{c['kind']}:raised" + (":" + kcls if kcls else ""))
                     if section_key:
                         ck.fail_case(sec_sig, {"outcome": "raises " + type(e).__name__, "key": special_key, "error": repr(e)[:300], "meta": _js(c["meta"]), "content": _content(c)})
+                    elif _has_huge(c) and isinstance(e, OverflowError) and _raised_in(e) == f"isotherm_to_{fmt}":
+                        # the value cannot be a cell / a double: a refusal, but the library's own OverflowError.  Only this error, raised under the WRITER,
+                        # for a content that holds such a number: any other error, or this error for numbers a double can hold, keeps the usual signature
+                        ck.count((fmt, c["kind"], i, "huge"), nontrivial=False, bucket=f"whole number above the float maximum {fmt}: OverflowError at export")
+                        ck.fail_case({"format": fmt, "class": c["kind"], "clause": "refusal is not a pyGAPS error", "value_class": "int above the float maximum",
+                                      "error": "OverflowError", "raised_in": _raised_in(e)},
+                                     {"error": repr(e)[:300], "meta": _js(c["meta"]), "material_props": _js(c["material_props"]), "content": _content(c)})
                     else:
                         ck.fail_case({**sig, "clause": "refusal is not a pyGAPS error" if odd else "in-domain isotherm raises", "error": type(e).__name__},
                                      {"error": repr(e)[:300], "meta": _js(c["meta"]), "content": _content(c)})
@@ -673,7 +687,19 @@ def run(ck):
                                      {"key": special_key, "value": _js(val), "material exported": _js(mat), "material imported": _js(after["dict"]["material"]), "content": _content(c)})
                         diffs, captured = rest, True        # whatever else differs is reported on its own
                 for where, a, b, vclass in diffs[:6]:
-                    ck.fail_case({**sig, "clause": "silently changed" if where.startswith("metadata") and odd and "odd_one" in where else "round trip differs",
+                    xsig = {}
+                    if fmt == "xl" and vclass == "int" and where.startswith("metadata '"):
+                        # S18-xl-int: an Excel cell is a double.  Recorded is exactly this: the imported value is float(exported) - for |v| <= 2**53 the same
+                        # number as a float (27 -> 27.0), beyond it the nearest double (2**53 + 1 -> 9007199254740992.0, digits lost).  Anything else is reported.
+                        try:
+                            k_ = ast.literal_eval(where[len("metadata "):])
+                            va_, vb_ = before["dict"][k_], after["dict"][k_]
+                            xsig["imported"] = "float(exported)" if type(vb_) is float and vb_ == float(va_) else "another value"
+                            ck.count((fmt, c["kind"], i, k_, "xlint"), nontrivial=False,
+                                     bucket="xl integer metadata: " + ("beyond 2**53, nearest double" if abs(va_) > 2 ** 53 else "same number as a float") if xsig["imported"] == "float(exported)" else "xl integer metadata: another value")
+                        except Exception:  # noqa
+                            xsig["imported"] = "not comparable"
+                    ck.fail_case({**sig, **xsig, "clause": "silently changed" if where.startswith("metadata") and odd and "odd_one" in where else "round trip differs",
                                   "where": where.split(" ")[0], "value_class": vclass}, {"where": where, "exported": a, "imported": b, "meta": _js(c["meta"]), "content": _content(c)})
                 if not diffs and not captured and back.iso_id != iso.iso_id:
                     idsig = dict(sig)
@@ -756,7 +782,9 @@ def run(ck):
                       "zero and negative temperatures, every model with given ranges and models fitted on data) with metadata from the format domain "
                       "(in-domain text as decided by the Lean predicate, non-negative ints, floats - a negative zero as metadata value and as material-property value in every run -, bools) plus AT MOST ONE of: an out-of-domain value (40 %), a last metadata key that begins with a section / dispatch prefix "
                       "or a material-property prefix of a format, taken from the generated tables (22 %), material properties whose names contain such a prefix at the start / inside / at the end (20 %); "
-                      "string and file targets; distinct = (format, class, content); whole-number metadata of every magnitude (35 % of the integer draws beyond 10**9, see _whole_number; compared exactly); "
+                      "string and file targets; distinct = (format, class, content); whole-number metadata of every magnitude up to the float maximum (35 % of the integer draws beyond 10**9, up to 2**1023 + d, see _whole_number; compared exactly; "
+                      "Excel: recorded S18-xl-int only when the imported value is exactly float(exported), signature key `imported`), and in every run a whole number ABOVE the float maximum (HUGE_INTS: 10**400, 2**1024, 2**1024-1, …) "
+                      "as a metadata value and as a material-property value through all three formats (CSV / AIF carry it; Excel: xlwt's OverflowError under isotherm_to_xl, recorded S64-C07); "
                       "point isotherms built from a DataFrame whose ROW LABELS are not 0..n-1 in half of the point cases (shifted, one-based, iloc[::2] slice, boolean filter, text, reversed, permuted, float, far numbers: "
                       "same points / marks / order, the constructor keeps the labels in data_raw); "
                       "B2: CSV (five separators, string and file) and AIF x three classes with whole numbers of every magnitude as metadata values and as material-property values; "
@@ -772,8 +800,9 @@ def run(ck):
                        "stream C leaves out (outside the stated key domain 'keys without separator or blank', see `_ood_region`): CSV keys beginning with a blank character, CSV keys with a line break "
                        "after which no line is refused, AIF keys / property names with a blank or ending in a blank character; the value regions of the former candidates C1, C2, C5, C6 are generated "
                        "(recorded S55-C07a…e), AIF file targets are generated (C4, repaired: S55-C07f)",
-                       "whole numbers above 1.8e308 are not generated (Excel: xlwt raises OverflowError at export - candidate, reported); an integer material property is not sent through Excel "
-                       "(comes back as a float, S18-xl-int family; integer METADATA goes through Excel and is matched by S18-xl-int, beyond 2**53 with lost digits); duplicated row labels are not generated",
+                       "an integer material property a double can hold is not sent through Excel (comes back as a float, S18-xl-int family; integer METADATA goes through Excel and is matched by S18-xl-int "
+                       "when it comes back as float(exported), beyond 2**53 with lost digits; whole numbers above the float maximum go through Excel as metadata and as material property: S64-C07); "
+                       "duplicated row labels are not generated",
                        "material-property names and metadata keys with a blank are outside the stated key domain (AIF writes them with underscores: theorem aifKey_blank_changed; tied in step A4)"]
 
 
@@ -1098,18 +1127,37 @@ def _ood_stream(ck, pg, tmpdir, pool, section, matp, tol, io):
 
 def _whole_number(rng, big=False):
     """a non-negative whole number of ANY magnitude (Python int): counts, but also serial / bar-code numbers and time_ns stamps - beyond 2**53 an integer is
-    in general not a double, beyond 2**63 / 2**64 not a machine integer; the formats write digits, so every one of them is inside the value domain"""
+    in general not a double, beyond 2**63 / 2**64 not a machine integer; the formats write digits, so every one of them is inside the value domain.
+    All of them are below the float maximum (float(v) does not overflow); the numbers above it are HUGE_INTS (stream B, in every run)"""
     r = rng.random()
     if not big and r < 0.65:
         return rng.randint(0, 10 ** rng.randint(0, 9))
     if r < 0.75:
-        k = rng.choice([53, 53, 54, 62, 63, 64, 80, 100])
+        k = rng.choice([53, 53, 54, 62, 63, 64, 80, 100, 400, 1000, 1023])          # 2**1023 + d is below the float maximum (float(v) does not overflow)
         return 2 ** k + rng.choice([-1, 0, 1, 1, 3, rng.randint(2, 10 ** 6)])
     if r < 0.85:
         return 10 ** rng.randint(15, 24) + rng.choice([-1, 1, 1, 7, rng.randint(2, 999)])
     if r < 0.93:
         return rng.randint(1_500_000_000, 1_900_000_000) * 10 ** 9 + rng.randint(0, 10 ** 9 - 1)       # a time.time_ns() stamp
     return rng.getrandbits(rng.randint(50, 90)) | 1
+
+
+# whole numbers ABOVE the float maximum: float(v) raises OverflowError (2**1024 - 1 rounds up to 2**1024: already outside)
+HUGE_INTS = [10 ** 400, 2 ** 1024, 2 ** 1024 - 1, 10 ** 309 + 7, 2 ** 2000 + 1, int("9" * 320)]
+
+
+def _beyond_float(v):
+    if isinstance(v, bool) or not isinstance(v, int):
+        return False
+    try:
+        float(v)
+        return False
+    except OverflowError:
+        return True
+
+
+def _has_huge(c):
+    return any(_beyond_float(v) for v in list(c["meta"].values()) + list(c["material_props"].values()))
 
 
 def _exact_ints(a, b):
